@@ -84,6 +84,7 @@ def main():
             print("  check %s: rc=%s classes=%s (%.0fs)" % (c, p.returncode, results[c]["classes"], time.time() - t0))
     finally:
         sh("git -C /repo checkout -- .")
+        sh("cd /verif && git checkout -- evidence")   # evidence written on a changed tree is never kept
     meta["checks_run"] = results
     meta["detected_by"] = [c for c, v in results.items() if v["rc"] == 1]
     meta["what_was_run"] = "tools/seed_mutant.py %s %s %s --checks %s --tier %s" % (agent, which, prop, ",".join(checks), tier)
